@@ -71,3 +71,239 @@ def forwarding(ctx, rule, only=None):
                 ok = whole and args_ok
         ctx.ob(rule, pf, pf.node.lineno, f"Plate.{name} delegates to self[:].{name} with its own arguments", ok,
                fact=fact, why='the whole-plate operation does not address all wells', key=f"delegation Plate.{name}")
+
+
+EXTERNAL_METHOD_NAMES = {'get', 'copy', 'set', 'apply', 'remove', 'index', 'append', 'add', 'items', 'keys', 'values', 'join',
+                         'split', 'format', 'round', 'sum', 'min', 'max', 'flatten', 'pop', 'replace', 'strip', 'count',
+                         'endswith', 'update', 'use', 'export', 'dataframe', 'highlight_wells', 'get_dataframe'}
+
+
+def arity(ctx, rule):
+    """T1: a call whose callee resolves to repo methods none of which accepts it cannot execute."""
+    model = ctx.model
+    checked = 0
+    for fi in model.functions():
+        if fi.parent is not None or fi.mod.rel not in ('pyplate/pyplate.py', 'pyplate/slicer.py'):
+            continue
+        for c in ast.walk(fi.node):
+            if not (isinstance(c, ast.Call) and isinstance(c.func, ast.Attribute)):
+                continue
+            name = c.func.attr
+            cands = model.methods_named(name)
+            if not cands or name.startswith('__'):
+                continue
+            if any(isinstance(a, ast.Starred) for a in c.args) or any(k.arg is None for k in c.keywords):
+                continue
+            recv = c.func.value
+            via_class = isinstance(recv, ast.Name) and recv.id in model.classes
+            if via_class:
+                m = model.lookup_method(recv.id, name)
+                cands = [m] if m is not None else []
+                if not cands:
+                    continue
+            elif isinstance(recv, ast.Name) and recv.id in ('self',) and fi.cls is not None:
+                m = model.lookup_method(fi.cls.name, name)
+                cands = [m] if m is not None else cands
+            elif name in EXTERNAL_METHOD_NAMES:
+                continue
+            elif isinstance(recv, ast.Name) and recv.id in ('np', 'numpy', 'pandas', 'styler', 'df'):
+                continue
+            if isinstance(recv, ast.Call) and getattr(recv.func, 'id', '') == 'super':
+                continue
+            checked += 1
+            kws = [k.arg for k in c.keywords]
+            ok = any(m.accepts(len(c.args), kws, via_class=via_class) for m in cands)
+            if ok:
+                continue
+            ctx.ob(rule, fi, c.lineno, f"call `{unparse(c, 60)}` matches the signature of a callee", False,
+                   fact=f"candidates: {[m.qualname + ('(static)' if m.is_static else '') for m in cands]}; "
+                        f"{len(c.args)} positional, keywords {kws}",
+                   why='no method of that name accepts this call: the branch raises TypeError whenever it is reached',
+                   key=f"arity {name}: {unparse(c, 60)}")
+    ctx.ob(rule, 'PlateSlicer', 0, 'method calls with a resolvable callee match a signature', True,
+           fact=f"{checked} calls checked", nontrivial=False, key='arity summary')
+    floor(ctx, 'resolvable method calls', checked, 60)
+
+
+def narrowed_classes(e, state, model, depth=0):
+    """Classes an expression is known to range over from isinstance facts (through copy/deepcopy aliases)."""
+    if depth > 8:
+        return None
+    v = e
+    while isinstance(v, Ref):
+        inner = v.value
+        if isinstance(inner, ast.Call) and isinstance(inner.func, ast.Name) and inner.func.id in ('copy', 'deepcopy') and inner.args:
+            return narrowed_classes(inner.args[0], state, model, depth + 1)
+        v = inner
+    if not isinstance(v, Param):
+        return None
+    classes = None
+    for f in state.facts.values():
+        t = f.test
+        if isinstance(t, ast.Call) and isinstance(t.func, ast.Name) and t.func.id == 'isinstance' and len(t.args) == 2 and \
+                strip_refs(t.args[0]) is v:
+            tn = t.args[1]
+            names = [unparse(x.orig if hasattr(x, 'orig') else x) for x in (tn.elts if isinstance(tn, ast.Tuple) else [tn])]
+            names = [n for n in names if n in model.classes]
+            if f.truth and names:
+                classes = set(names) if classes is None else classes & set(names)
+            elif not f.truth and classes is not None:
+                classes -= set(names)
+    return classes
+
+
+def union_attributes(ctx, rule, qualnames):
+    """T2: an attribute read on a value narrowed by isinstance(x, (A, B)) must exist on every member class."""
+    model = ctx.model
+    n = 0
+    for q in qualnames:
+        fi = model.func(q)
+        ff = ctx.flow(q)
+        seen = set()
+        reads = {}
+        for node in walk_no_nested(fi.node):
+            if not isinstance(node, ast.stmt) or id(node) not in ff.pre:
+                continue
+            st = ff.state_before(node)
+            exprs = []
+            for sub in ast.iter_child_nodes(node):
+                if isinstance(sub, ast.expr):
+                    exprs.append(sub)
+            if isinstance(node, (ast.If, ast.While)):
+                exprs = [node.test]
+            elif isinstance(node, ast.For):
+                exprs = [node.iter]
+            for ex in exprs:
+                for a in ast.walk(ex):
+                    if isinstance(a, ast.Attribute) and isinstance(a.ctx, ast.Load) and isinstance(a.value, ast.Name):
+                        r = ff.resolve(a.value, st)
+                        cl = narrowed_classes(r, st, model)
+                        if not cl or len(cl) < 2:
+                            continue
+                        keyk = (a.value.id, tuple(sorted(cl)))
+                        reads.setdefault(keyk, {}).setdefault(a.attr, a.lineno)
+        for (var, cl), attrs in sorted(reads.items()):
+            n += len(attrs)
+            missing = {}
+            for attr, line in attrs.items():
+                for c in cl:
+                    if attr not in model.instance_attrs(c):
+                        missing.setdefault(c, []).append(attr)
+            line = min(attrs.values())
+            ctx.ob(rule, fi, line, f"attributes read on `{var}` exist on every class it may be ({', '.join(cl)})",
+                   not missing, fact=f"narrowed by isinstance to {list(cl)}; reads {sorted(attrs)}",
+                   why='; '.join(f"{c} has no {sorted(a)}" for c, a in sorted(missing.items())) +
+                       ': that documented input raises AttributeError',
+                   key=f"attributes of {var} missing on {','.join(sorted(missing))}")
+    return n
+
+
+def shape_dispatch(ctx, rule):
+    model = ctx.model
+    fi = model.func('PlateSlicer._transfer')
+    ff = ctx.flow(fi.qualname)
+    regs = ff.registrations
+    found = {'one-to-many': None, 'many-to-one': None, 'element-wise': None}
+    for call, stmt, before in regs:
+        eqs = []
+        for c in facts_at(before):
+            if c.op == 'eq':
+                l, r = show(c.left, 30), show(c.right, 30)
+                eqs.append((l, r, const_value(c.right), const_value(c.left)))
+        sizes1 = [e for e in eqs if e[2] == 1 or e[3] == 1]
+        if any('.size' in e[0] or '.size' in e[1] for e in sizes1):
+            who = [e[0] if '.size' in e[0] else e[1] for e in sizes1 if '.size' in e[0] or '.size' in e[1]][0]
+            params = fi.param_names()
+            if who.startswith(params[0]):
+                found['one-to-many'] = (stmt, f"{who} == 1")
+            elif who.startswith(params[1]):
+                found['many-to-one'] = (stmt, f"{who} == 1")
+        both = [e for e in eqs if '.size' in e[0] and '.size' in e[1]]
+        shp = [e for e in eqs if '.shape' in e[0] and '.shape' in e[1]]
+        if both and shp:
+            found['element-wise'] = (stmt, f"{both[0][0]} == {both[0][1]} and {shp[0][0]} == {shp[0][1]}")
+    for k, v in found.items():
+        ctx.ob(rule, fi, (v[0].lineno if v else fi.node.lineno), f"pairing form {k} has a branch", v is not None,
+               fact=v[1] if v else 'no per-well function is registered under that shape condition',
+               why='a documented pairing form is not handled', key=f"pairing branch {k}")
+    # every other combination raises ValueError
+    others = [e for e in ff.raise_exits() if e.exc == 'ValueError' and
+              any(c.op == 'ne' and ('.size' in show(c.left, 30) or '.shape' in show(c.left, 30)) or c.op == 'not-chain' or
+                  (c.op in ('falsy',)) for c in facts_at(e.state))]
+    rej = [e for e in ff.raise_exits() if e.exc == 'ValueError']
+    ctx.ob(rule, fi, (rej[-1].line if rej else fi.node.lineno), 'any other combination of shapes is rejected with ValueError',
+           bool(rej), fact=f"{len(rej)} ValueError exit(s)", why='mismatched shapes are not refused', key='shape mismatch rejection',
+           nontrivial=False)
+
+
+def run(ctx):
+    from . import c01
+    from ..fresh import Fresh
+    from ..effects import mutating_call_oracle
+    model = ctx.model
+    # R1 locality
+    before = len(ctx.obs)
+    c01.writeback_locality(ctx)
+    for o in ctx.obs[before:]:
+        o.rule = 'C07.R1'
+    fr = Fresh(model, mutating_call_oracle(model))
+    nev = 0
+    for q in ('PlateSlicer._transfer', 'Container._transfer_slice', 'PlateSlicer.remove', 'PlateSlicer.fill_to'):
+        fi = model.func(q)
+        for e in fr.analyse(fi):
+            nev += 1
+            if e.ok:
+                ctx.ob('C07.R1', fi, e.line, f"{e.desc} [{e.fi.qualname}]", True, fact=f"{e.cls}: {e.why}",
+                       key=f"mutation {e.target_text}")
+            else:
+                ctx.ob('C07.R1', fi, e.line, f"{e.desc} [{e.fi.qualname}]", False, fact=f"{e.cls}: {e.why}",
+                       why='wells are written in an object that is not a fresh copy: the rest of the caller\'s plate changes',
+                       key=f"mutation of non-fresh object: {e.target_text}")
+    floor(ctx, 'mutation events in the plate operations', nev, 15)
+    # R2 forwarding
+    forwarding(ctx, 'C07.R2')
+    for name in ('get_volumes', 'get_substances', 'get_moles'):
+        pf = model.func(f"Plate.{name}")
+        pff = ctx.flow(pf.qualname)
+        ok = False
+        for ex in pff.normal_exits():
+            v = strip_refs(ex.value)
+            if isinstance(v, ast.Call) and isinstance(v.func, ast.Attribute) and v.func.attr == name:
+                r = strip_refs(v.func.value)
+                ok = isinstance(r, ast.Subscript) and isinstance(strip_refs(r.value), Param) and isinstance(r.slice, ast.Slice) \
+                    and r.slice.lower is None and r.slice.upper is None
+        ctx.ob('C07.R2', pf, pf.node.lineno, f"Plate.{name} delegates to self[:].{name}", ok, nontrivial=False,
+               why='the plate observer does not cover all wells', key=f"delegation Plate.{name}")
+    pt = model.func('Plate.transfer')
+    ptf = ctx.flow(pt.qualname)
+    ok = False
+    for c, s, b in ptf.calls:
+        if is_call_to(c, '_transfer') and len(c.args) == 3:
+            d = c.args[1]
+            # destination is a slice: the Plate case was wrapped as [:]
+            opts = d.options if isinstance(d, Phi) else [d]
+            ok = any(isinstance(strip_refs(o), ast.Subscript) for o in opts) and \
+                any(isinstance(strip_refs(o), Param) for o in opts)
+    ctx.ob('C07.R2', pt, pt.node.lineno, 'Plate.transfer wraps a whole-plate destination as plate[:]', ok,
+           why='a Plate destination is not addressed as all of its wells', key='Plate.transfer wraps destination')
+    # R3 shape dispatch, executable branches
+    shape_dispatch(ctx, 'C07.R3')
+    arity(ctx, 'C07.R3')
+    n = union_attributes(ctx, 'C07.R3', ('PlateSlicer._transfer', 'Container._transfer_slice', 'Container.transfer',
+                                         'Plate.transfer'))
+    ctx.count('union_attribute_reads', n)
+    # R4 one application per recipe step
+    from .c09 import record_protocol
+    before = len(ctx.obs)
+    record_protocol(ctx, 'C07.R4x', once_rule='C07.R4')
+    ctx.obs[before:] = [o for o in ctx.obs[before:] if o.rule == 'C07.R4']
+    return {'explanation': 'R1 (locality): Slicer.apply/set write exactly the keys they read, and every mutation in the '
+                           'plate operations (including the per-well closures at their registration sites) targets a '
+                           'deep copy of the plate, so unaddressed wells are untouched. R2 (forwarding): the per-well '
+                           'function of PlateSlicer.remove/fill_to is the same-named Container method on the element with '
+                           'the outer arguments unchanged; Plate.* delegate to self[:]. R3 (shape dispatch): the three '
+                           'pairing branches exist, other shapes raise ValueError, and every branch is executable - each '
+                           'call with a resolvable callee matches a signature (arity typing) and every attribute read on '
+                           'an isinstance-narrowed union exists on all member classes. R4: every operator branch of bake '
+                           'applies its operation exactly once per step. Not decided: numerical per-well equality with a '
+                           'stand-alone container (the same Container methods run).'}
